@@ -358,3 +358,249 @@ Proof.
   - unfold wf_rec. cbn [lr_type lr_body]. rewrite lrtype_byte. cbn [andb]. eapply enc_set_bytes. exact Henc.
   - intros _. right. cbn [lr_body]. destruct (enc_set_dec es _ Hwf ltac:(discriminate) Henc) as (d & Hd & _). exists d. exact Hd.
 Qed.
+
+(* ---------- the FILE-HEADER record decodes under the same grammar ---------- *)
+Lemma dec_template_fuel : forall f bs r, dec_template f bs = Some r -> forall f', (f <= f')%nat -> dec_template f' bs = Some r.
+Proof.
+  induction f as [|f IH]; intros bs r H f' Hle; [discriminate|]. destruct f' as [|f']; [lia|].
+  cbn [dec_template] in *. destruct bs as [|d bs']; [exact H|].
+  destruct ((role d =? 1) || (role d =? 2)); [|exact H].
+  destruct (dec_tattr (d :: bs')) as [[t r0]|]; [|discriminate].
+  destruct (dec_template f r0) as [[ts r']|] eqn:E; [|discriminate]. rewrite (IH _ _ E f' ltac:(lia)). exact H.
+Qed.
+
+Lemma dec_objs_fuel tm : forall f bs r, dec_objs f tm bs = Some r -> forall f', (f <= f')%nat -> dec_objs f' tm bs = Some r.
+Proof.
+  induction f as [|f IH]; intros bs r H f' Hle; [discriminate|]. destruct f' as [|f']; [lia|].
+  cbn [dec_objs] in *. destruct bs as [|d bs']; [exact H|].
+  destruct (negb (d =? 112)); [discriminate|]. destruct (dec_obname bs') as [[o r1]|]; [|discriminate].
+  destruct (dec_oattrs tm r1) as [[az r2]|]; [|discriminate].
+  destruct (dec_objs f tm r2) as [os|] eqn:E; [|discriminate]. rewrite (IH _ _ E f' ltac:(lia)). exact H.
+Qed.
+
+Definition fh_tattr (lab : list Z) : tattr :=
+  {| t_label := lab; t_attr := {| d_count := 1; d_code := 20; d_units := None; d_values := None |} |}.
+
+Lemma fh_tattr_dec lab l rest : enc_ident lab = OK l -> dec_tattr (52 :: l ++ 20 :: rest) = Some (fh_tattr lab, rest).
+Proof.
+  intros H. unfold dec_tattr. change (is_byte 52) with true. change (52 / 32 =? 1) with true. change (bit 52 16) with true.
+  cbn [negb orb]. rewrite (ident_rt _ _ _ H).
+  unfold dec_chars. change (bit 52 8) with false. change (bit 52 4) with true. change (bit 52 2) with false. change (bit 52 1) with false.
+  cbn [global_default d_count d_units]. unfold dec_ushort. change ((1 <=? 20) && (20 <=? 27)) with true. cbn [negb]. reflexivity.
+Qed.
+
+Lemma fixed_ascii s n : zlen s = n -> 0 <= n < 128 -> all_ascii s = true -> enc_ascii s = OK (n :: s).
+Proof.
+  intros Hl Hn Ha. unfold enc_ascii. rewrite Hl. unfold enc_uvari. destruct (Z.ltb_spec n 128); [|lia].
+  unfold enc_ushort. destruct ((0 <=? n) && (n <? 256)) eqn:E; [|lia]. cbn [bind]. unfold enc_chars. rewrite Ha. reflexivity.
+Qed.
+
+Lemma fh_oattr_dec s n rest : zlen s = n -> 0 < n < 128 -> all_ascii s = true ->
+  dec_oattr (t_attr (fh_tattr [])) (33 :: n :: s ++ rest)
+  = Some (Some {| d_count := 1; d_code := 20; d_units := None; d_values := Some [DText s] |}, rest).
+Proof.
+  intros Hl Hn Ha. unfold dec_oattr. change (is_byte 33) with true. change (33 =? 0) with false. change (role 33 =? 1) with true.
+  change (bit 33 16) with false. cbn [negb]. unfold dec_chars. change (bit 33 8) with false. change (bit 33 4) with false.
+  change (bit 33 2) with false. change (bit 33 1) with true. cbn [fh_tattr t_attr d_count d_code d_units].
+  change ((1 <=? 20) && (20 <=? 27)) with true. change (1 <=? 0) with false. cbn [negb]. change (Z.to_nat 1) with 1%nat.
+  cbn [dec_vals]. unfold dec_val. change (20 =? 2) with false. change (20 =? 7) with false. change (20 =? 12) with false.
+  change (20 =? 13) with false. change (20 =? 14) with false. change (20 =? 15) with false. change (20 =? 16) with false.
+  change (20 =? 17) with false. change (20 =? 18) with false. change (20 =? 19) with false. change (20 =? 20) with true.
+  pose proof (ascii_rt s (n :: s) rest (fixed_ascii s n Hl ltac:(lia) Ha)) as Hr. cbn [app] in Hr. rewrite Hr. reflexivity.
+Qed.
+
+Theorem fileheader_dec o sq hid b : enc_fileheader o sq hid = OK b -> exists d, dec_set b = Some d.
+Proof.
+  unfold enc_fileheader. intros H. do 6 (bind_inv H). apply OK_inj_ in H. subst b.
+  rename a into t, a0 into l1, a1 into l2, a2 into n, a3 into s, a4 into h.
+  destruct (sq <? 0); [discriminate|].
+  destruct (justify_ok _ _ _ _ H4) as [Hs1 Hs2]. destruct (justify_ok _ _ _ _ H5) as [Hh1 Hh2].
+  destruct (obname_rt o n ((33 :: 10 :: s) ++ 33 :: 65 :: h) H3) as (org & _ & Hn).
+  unfold dec_set. change (negb ((240 =? 240) || (240 =? 248))) with false. cbv iota.
+  rewrite (ident_rt _ _ _ H0). change (240 =? 248) with false. cbv iota.
+  set (tm := [fh_tattr str_SEQNUM; fh_tattr str_ID]).
+  set (ob := (112 :: n) ++ (33 :: 10 :: s) ++ 33 :: 65 :: h).
+  assert (Ht : dec_template 3 ((52 :: l1 ++ [20]) ++ (52 :: l2 ++ [20]) ++ ob) = Some (tm, ob)).
+  { cbn [dec_template app]. change ((role 52 =? 1) || (role 52 =? 2)) with true. cbv iota.
+    rewrite <- !app_assoc. cbn [app]. rewrite (fh_tattr_dec _ _ _ H1).
+    change ((role 52 =? 1) || (role 52 =? 2)) with true. cbv iota. rewrite (fh_tattr_dec _ _ _ H2).
+    unfold ob. cbn [app]. change ((role 112 =? 1) || (role 112 =? 2)) with false. cbv iota. reflexivity. }
+  rewrite (dec_template_fuel _ _ _ Ht); [|cbn [app length]; rewrite !app_length; cbn [length]; lia].
+  assert (Ho : dec_objs 2 tm ob = Some [{| do_name := o; do_attrs := [Some {| d_count := 1; d_code := 20; d_units := None; d_values := Some [DText s] |};
+                                                                     Some {| d_count := 1; d_code := 20; d_units := None; d_values := Some [DText h] |}] |}]).
+  { unfold ob. cbn [dec_objs app]. change (negb (112 =? 112)) with false. cbv iota. cbn [app] in Hn. rewrite Hn.
+    unfold tm. cbn [dec_oattrs app]. change (role 33 =? 3) with false. cbv iota.
+    pose proof (fh_oattr_dec s 10 (33 :: 65 :: h) Hs1 ltac:(lia) Hs2) as A1. cbn [fh_tattr t_attr] in A1 |- *. rewrite A1.
+    change (role 33 =? 3) with false. cbv iota.
+    pose proof (fh_oattr_dec h 65 [] Hh1 ltac:(lia) Hh2) as A2. cbn [fh_tattr t_attr] in A2. rewrite app_nil_r in A2. rewrite A2. reflexivity. }
+  rewrite (dec_objs_fuel _ _ _ _ Ho); [|unfold ob; cbn [app length]; rewrite ?app_length; cbn [length]; lia].
+  eexists. reflexivity.
+Qed.
+
+(* ---------- the records of one logical file ---------- *)
+Lemma rec_ok_iflr ty body : is_byte ty = true -> all_bytes body = true -> rec_ok {| lr_eflr := false; lr_type := ty; lr_body := body |}.
+Proof. intros Ht Hb. split; [unfold wf_rec; cbn [lr_type lr_body]; rewrite Ht, Hb; reflexivity | cbn [lr_eflr]; discriminate]. Qed.
+
+Lemma frame_recs_ok o : forall rows i recs, frame_recs o i rows = OK recs -> Forall rec_ok recs.
+Proof.
+  induction rows as [|r rows IH]; intros i recs H; [inv H; constructor|].
+  cbn [frame_recs] in H. bind_inv H. bind_inv H. inv H. constructor; [|eapply IH; eassumption].
+  unfold fdata_rec in H0. bind_inv H0. inv H0. apply rec_ok_iflr; [reflexivity | eapply fdata_body_bytes; eassumption].
+Qed.
+
+Definition sets_step (acc : res (bstate * list lrec)) (sid : nat) : res (bstate * list lrec) :=
+  do (s, recs) <- acc; do (s', r) <- enc_sset s sid; OK (s', recs ++ [r]).
+
+Lemma fold_sets_ok : forall sids st acc st' out,
+  fold_left sets_step sids (OK (st, acc)) = OK (st', out) -> Inv st -> Forall rec_ok acc -> Inv st' /\ Forall rec_ok out.
+Proof.
+  induction sids as [|sid sids IH]; intros st acc st' out H Hi Ha; [inv H; auto|].
+  cbn [fold_left] in H. unfold sets_step at 2 in H. cbn [bind] in H.
+  destruct (enc_sset st sid) as [[s1 r]|e] eqn:E; cbn [bind] in H; [|rewrite fold_err in H by reflexivity; discriminate].
+  destruct (enc_sset_ok _ _ _ _ E Hi) as [Hi1 Hr].
+  eapply IH; [exact H | exact Hi1 |]. apply Forall_app. split; [exact Ha | constructor; [exact Hr | constructor]].
+Qed.
+
+Theorem lf_records_ok st f frames st' recs : lf_records st f frames = OK (st', recs) -> Inv st -> Inv st' /\ Forall rec_ok recs.
+Proof.
+  unfold lf_records. intros H Hi. bind_inv H. rename a into fh, H0 into Hfh.
+  change (fun (acc : res (bstate * list lrec)) (sid : nat) => _) with sets_step in H.
+  bind_inv H. destruct a as [st1 erecs]. rename H0 into Hfold.
+  bind_inv H. rename a into nf, H0 into Hnf. bind_inv H. rename a into fd, H0 into Hfd. inv H.
+  assert (Hfhr : rec_ok {| lr_eflr := true; lr_type := 0; lr_body := fh |}).
+  { split; [unfold wf_rec; cbn [lr_type lr_body]; rewrite (enc_fileheader_bytes _ _ _ _ Hfh); reflexivity|].
+    intros _. right. cbn [lr_body]. eapply fileheader_dec. exact Hfh. }
+  destruct (fold_sets_ok _ _ _ _ _ Hfold Hi ltac:(constructor; [exact Hfhr | constructor])) as [Hi1 He].
+  split; [exact Hi1|]. apply Forall_app. split; [exact He|]. apply Forall_app. split.
+  - clear -Hnf. revert nf Hnf. induction (l_nofmt f) as [|[obj p] l IH]; intros nf H; [inv H; constructor|].
+    destruct obj; try discriminate. destruct (nth_error (b_items st') i); [|discriminate].
+    bind_inv H. bind_inv H. bind_inv H. inv H. constructor; [|apply IH; assumption].
+    unfold nofmt_rec in H1. bind_inv H1. inv H1. apply rec_ok_iflr; [reflexivity|].
+    eapply nofmt_body_bytes; [|exact H]. unfold payload_of in H0. destruct p; try discriminate.
+    + destruct (all_bytes b) eqn:Eb; inv H0. exact Eb.
+    + inv H0. exact I.
+  - clear -Hfd. revert fd Hfd. induction frames as [|[fr rows] l IH]; intros fd H; [inv H; constructor|].
+    bind_inv H. bind_inv H. inv H. apply Forall_app. split; [eapply frame_recs_ok; eassumption | apply IH; assumption].
+Qed.
+
+(* ---------- DLISFile.write ---------- *)
+Lemma check_all_inv hc : forall fs k s s', check_all hc k fs s = OK s' -> Inv s -> Inv s'.
+Proof.
+  induction fs as [|f0 fs IH]; intros k s s' H Hi; [inv H; exact Hi|].
+  cbn [check_all] in H. destruct (lf_at s k) as [f|]; [|discriminate]. bind_inv H.
+  eapply IH; [exact H|]. eapply check_objects_inv; eassumption.
+Qed.
+
+Lemma setup_step_inv hc w k acc fr : Inv (fst acc) -> Inv (fst (setup_step hc w k acc fr)).
+Proof.
+  destruct acc as [sa ra]. cbn [fst]. intros Hi. unfold setup_step. destruct ra as [l|e]; [|exact Hi].
+  destruct (find_wframe w fr) as [wf|]; [|exact Hi].
+  destruct (setup_frame hc sa k w wf) as [[sb rows]|e] eqn:E; [|exact Hi]. cbn [fst]. eapply setup_frame_inv; eassumption.
+Qed.
+
+Lemma setup_fold_inv hc w k : forall frs acc, Inv (fst acc) -> Inv (fst (fold_left (setup_step hc w k) frs acc)).
+Proof. induction frs as [|fr frs IH]; intros acc Hi; [exact Hi|]. cbn [fold_left]. apply IH. apply setup_step_inv. exact Hi. Qed.
+
+Lemma setup_all_inv hc w : forall fs k s acc, Inv s -> Inv (fst (setup_all hc w k fs s acc)).
+Proof.
+  induction fs as [|f0 fs IH]; intros k s acc Hi; [exact Hi|].
+  cbn [setup_all]. destruct (lf_at s k) as [f|]; [|exact Hi].
+  pose proof (setup_fold_inv hc w k (lf_frames s f) (s, OK []) Hi) as H.
+  destruct (fold_left (setup_step hc w k) (lf_frames s f) (s, OK [])) as [s' fr]. cbn [fst] in H.
+  destruct fr as [l|e]; [apply IH; exact H | exact H].
+Qed.
+
+Lemma records_all_ok : forall l k s acc, Inv s -> Forall rec_ok acc ->
+  Inv (fst (records_all k l s acc)) /\ (forall recs, snd (records_all k l s acc) = OK recs -> Forall rec_ok recs).
+Proof.
+  induction l as [|frs l IH]; intros k s acc Hi Ha.
+  - cbn. split; [exact Hi | intros recs H; inv H; exact Ha].
+  - cbn [records_all]. destruct (lf_at s k) as [f|]; [|cbn; split; [exact Hi | discriminate]].
+    destruct (map_opt _ frs) as [frs'|].
+    + destruct (lf_records s f frs') as [[s' recs]|e] eqn:E; [|cbn; split; [exact Hi | discriminate]].
+      destruct (lf_records_ok _ _ _ _ _ E Hi) as [Hi' Hr]. apply IH; [exact Hi' | apply Forall_app; split; assumption].
+    + destruct (lf_records s f []) as [[s' recs]|e] eqn:E; cbn; (split; [|discriminate]); [|exact Hi].
+      eapply lf_records_ok; eassumption.
+Qed.
+
+(* the state a write leaves behind (successful or not) satisfies the invariant again: a DLISFile can be edited and
+   written any number of times *)
+Theorem write_inv hc st w : Inv st -> Inv (fst (write hc st w)).
+Proof.
+  intros Hi. unfold write. destruct (check_all hc 0 (b_lfs st) st) as [st1|e] eqn:E1; [|exact Hi].
+  pose proof (check_all_inv _ _ _ _ _ E1 Hi) as Hi1.
+  pose proof (setup_all_inv hc w (b_lfs st1) 0%nat st1 [] Hi1) as Hi2.
+  destruct (setup_all hc w 0 (b_lfs st1) st1 []) as [st2 r2]. cbn [fst] in Hi2. destruct r2 as [perlf|e]; [|exact Hi2].
+  destruct (negb (check_vrl (w_vrl w))); [exact Hi2|]. destruct (sul_bytes _); [|exact Hi2].
+  destruct (records_all_ok perlf 0%nat st2 [] Hi2 ltac:(constructor)) as [Hi3 _].
+  destruct (records_all 0 perlf st2 []) as [st3 r3]. destruct r3; exact Hi3.
+Qed.
+
+Theorem write_records hc st w st' bs : write hc st w = (st', OK bs) -> Inv st ->
+  exists recs, Forall rec_ok recs /\ write_file {| sul_seq := w_seq w; sul_vrl := w_vrl w; sul_id := w_ident w |} recs = OK bs.
+Proof.
+  intros H Hi. unfold write in H. destruct (check_all hc 0 (b_lfs st) st) as [st1|e] eqn:E1; [|inv H].
+  pose proof (check_all_inv _ _ _ _ _ E1 Hi) as Hi1.
+  pose proof (setup_all_inv hc w (b_lfs st1) 0%nat st1 [] Hi1) as Hi2.
+  destruct (setup_all hc w 0 (b_lfs st1) st1 []) as [st2 r2]. cbn [fst] in Hi2. destruct r2 as [perlf|e]; [|inv H].
+  destruct (negb (check_vrl (w_vrl w))); [inv H|]. destruct (sul_bytes _); [|inv H].
+  destruct (records_all_ok perlf 0%nat st2 [] Hi2 ltac:(constructor)) as [_ Hr].
+  destruct (records_all 0 perlf st2 []) as [st3 r3]. destruct r3 as [recs|e]; [|inv H].
+  injection H as _ H. exists recs. split; [apply Hr; reflexivity | exact H].
+Qed.
+
+Lemma map_opt_total {A B} (f : A -> option B) : forall l, Forall (fun x => exists y, f x = Some y) l -> exists ys, map_opt f l = Some ys.
+Proof.
+  induction l as [|x l IH]; intros H; [exists []; reflexivity|]. apply Forall_cons_iff in H. destruct H as [[y Hy] Hl].
+  destruct (IH Hl) as [ys Hys]. exists (y :: ys). cbn [map_opt]. rewrite Hy, Hys. reflexivity.
+Qed.
+
+(* THE COMPOSITION: whatever the API model writes — from any state satisfying the invariant, hence after any sequence
+   of API calls and earlier writes — has the standard layout and is accepted, record by record, by the complete strict
+   reader (framing, reassembly, component grammar of every explicitly formatted record). *)
+Theorem write_readable hc st w st' bs :
+  Inv st -> write hc st w = (st', OK bs) ->
+  let cfg := {| sul_seq := w_seq w; sul_vrl := w_vrl w; sul_id := w_ident w |} in
+  Layout cfg bs /\ (exists lrds, read_logical cfg bs = Some lrds) /\ Inv st'.
+Proof.
+  intros Hi H cfg. destruct (write_records _ _ _ _ _ H Hi) as (recs & Hr & Hw). fold cfg in Hw.
+  assert (Hwf : forallb wf_rec recs = true).
+  { apply forallb_forall. intros r Hin. rewrite Forall_forall in Hr. apply (Hr r Hin). }
+  split; [eapply write_file_layout; eassumption|]. split.
+  - unfold read_logical. rewrite (read_write_file cfg recs bs Hwf Hw). apply map_opt_total.
+    apply Forall_forall. intros r Hin. apply filter_In in Hin. destruct Hin as [Hin Hne].
+    rewrite Forall_forall in Hr. destruct (Hr r Hin) as [_ Hd]. unfold decode_rec.
+    destruct (lr_eflr r) eqn:Ee; [|eexists; reflexivity].
+    destruct (Hd eq_refl) as [Hnil | [d Hdd]].
+    + unfold nonempty_body in Hne. rewrite Hnil in Hne. discriminate.
+    + rewrite Hdd. eexists. reflexivity.
+  - pose proof (write_inv hc st w Hi) as Hi'. rewrite H in Hi'. exact Hi'.
+Qed.
+
+(* reachability including writes: API calls and writes in any order *)
+Inductive action := AOp (o : op) | AWrite (w : wopts).
+Fixpoint run_actions (ps : pstate) (st : bstate) (l : list action) : pstate * bstate :=
+  match l with
+  | [] => (ps, st)
+  | AOp o :: r => let '(ps', st', _) := step ps st o in run_actions ps' st' r
+  | AWrite w :: r => run_actions ps (fst (write (p_hc ps) st w)) r
+  end.
+
+Theorem reachable_inv_actions : forall l ps st, Inv st -> Inv (snd (run_actions ps st l)).
+Proof.
+  induction l as [|a l IH]; intros ps st Hi; [exact Hi|]. destruct a as [o|w]; cbn [run_actions].
+  - destruct (step ps st o) as [[ps' st'] out] eqn:E. apply IH. destruct Hi as [Hs Ht].
+    split; [eapply step_inv_shape; eassumption | eapply step_inv_struct; eassumption].
+  - apply IH. apply write_inv. exact Hi.
+Qed.
+
+Corollary every_written_file_is_readable l ps hc w st' bs :
+  let st := snd (run_actions ps b_init l) in
+  write hc st w = (st', OK bs) ->
+  let cfg := {| sul_seq := w_seq w; sul_vrl := w_vrl w; sul_id := w_ident w |} in
+  Layout cfg bs /\ exists lrds, read_logical cfg bs = Some lrds.
+Proof.
+  intros st H cfg.
+  assert (Hi : Inv st) by (apply reachable_inv_actions; split; [apply inv_shape_init | apply inv_struct_init]).
+  destruct (write_readable hc st w st' bs Hi H) as (A & B & _). split; assumption.
+Qed.
